@@ -16,6 +16,10 @@ import vlib
 from props._world import WorldGen, History
 
 ATV_BAD_KINDS = ["fork", "expired", "unkn", "nobop"]
+# planted VTBs: btcgap = BTC context does not connect (fails before the command group is built);
+# wunkn / wexpired = passes the stateless checks and the BTC-context check, fails INSIDE its command group after its
+# BTC blocks were added (endorsed VBK block unknown to the instance / more than vbk_settle behind the containing one)
+VTB_BAD_KINDS = ["btcgap", "wunkn", "wexpired"]
 
 
 class SmGen(WorldGen):
@@ -30,6 +34,31 @@ class SmGen(WorldGen):
     # ------------------------------------------------------------------ helpers
     def vpar(self, v):
         return self.vbk[v]["parent"]
+
+    def vbk_settle(self):
+        return self.cfg.get("vbk_settle", 400)
+
+    def vanc(self, v):
+        out = set()
+        while v is not None:
+            out.add(v)
+            v = self.vbk[v]["parent"]
+        return out
+
+    def vtb_pool(self, known):
+        """VBK blocks an honest VTB contained in the next block on vtip may endorse: known to the chain, on vtip's
+        own VBK chain, not expired"""
+        on_tip = self.vanc(self.vtip)
+        lim = min(8, self.vbk_settle() - 1)
+        ht = self.vbk[self.vtip]["height"]
+        return [v for v in sorted(known, key=lambda v: int(v[1:])) if v in on_tip and self.vbk[v]["height"] >= ht - lim]
+
+    def make_xvtb(self, endorsed, last_known_btc, vparent=None, bparent=None):
+        """as make_vtb, but the containing VBK block is assembled by hand (harness op `xvtb`): the miner does not
+        apply the VTB to its own tree, so the VTB may be contextually invalid"""
+        w = self.make_vtb(endorsed, last_known_btc, vparent, bparent)
+        self.lines[-1] = "on A x" + self.lines[-1]
+        return w
 
     def ensure_side(self, anc=()):
         """an ALT block that is NOT on the chain `anc` (a child of a0 with an empty body)"""
@@ -90,6 +119,8 @@ class SmGen(WorldGen):
     def make_payloads(self, parent, height, n_vtb, n_atv, n_extra, kb=None, endorsable=None):
         """fresh honest payloads for a block of the given height on `parent`'s chain"""
         r = self.r
+        if getattr(self, "no_vtb", False):
+            n_vtb = 0
         anc = self.ancestry(parent)
         settle = self.settle()
         cands = endorsable if endorsable is not None else \
@@ -97,9 +128,10 @@ class SmGen(WorldGen):
         kb = set(kb if kb is not None else self.alt[parent]["kb"])
         vtbs, atvs = [], []
         for j in range(n_vtb):
-            known = sorted(self.alt[parent]["kv"], key=lambda v: int(v[1:]))
-            pool = [v for v in known if self.vbk[v]["height"] >= self.vbk[self.vtip]["height"] - 8]
-            e = r.choice(pool or known)
+            pool = self.vtb_pool(self.alt[parent]["kv"])
+            if not pool:
+                continue
+            e = r.choice(pool)
             last = max(kb, key=lambda b: (self.btc[b]["height"], -int(b[1:])))
             w = self.make_vtb(e, last)
             kb |= set(self.vtb[w]["bctx"])
@@ -131,10 +163,26 @@ class SmGen(WorldGen):
         drop_from = None
         if pk == "vtb":
             j = plant[1]
+            kind = plant[2] if len(plant) > 2 else "btcgap"
             known = sorted(self.alt[parent]["kv"], key=lambda v: int(v[1:]))
-            ahead = self.mine_btc()              # a BTC block this chain has never been shown
-            w = self.make_vtb(r.choice(known), ahead)
-            self.bad[w] = "btcgap"
+            if kind == "wexpired":
+                old = [v for v in known if v in self.vanc(self.vtip)
+                       and self.vbk[self.vtip]["height"] + 1 - self.vbk[v]["height"] > self.vbk_settle()]
+                if old:
+                    w = self.make_xvtb(r.choice(old), self.last_btc(parent, vtbs[:j]))
+                else:
+                    kind = "wunkn"
+            if kind == "wunkn":
+                # endorsed VBK block: a sibling of the VBK tip that is never delivered to any instance
+                if self.vtip == "v0":
+                    self.mine_vbk()
+                x = self.mine_vbk(parent=self.vpar(self.vtip))
+                w = self.make_xvtb(x, self.last_btc(parent, vtbs[:j]))
+            if kind == "btcgap":
+                pool = self.vtb_pool(known)
+                ahead = self.mine_btc()              # a BTC block this chain has never been shown
+                w = self.make_vtb(r.choice(pool or [self.vtip]), ahead)
+            self.bad[w] = kind
             if j < len(vtbs):
                 vtbs[j] = w
             else:
@@ -180,9 +228,19 @@ class SmGen(WorldGen):
             if pool:
                 override = [pool[-1]] + ctx
         self.set_pd(aid, atvs=atvs, vtbs=vtbs, ctx=override if override is not None else ctx)
+        self.fix_kb(aid)
         if plant:
             self.planted_blocks[aid] = plant
         return aid
+
+    def fix_kb(self, aid):
+        """BTC blocks known after the block: planted VTBs deliver nothing (the miner's own tree never saw them)"""
+        a = self.alt[aid]
+        kb = set(self.alt[a["parent"]]["kb"])
+        for w in a["vtbs"]:
+            if not self.bad.get(w):
+                kb |= set(self.vtb[w]["bctx"])
+        a["kb"] = kb
 
     def positions(self, aid):
         """failure positions available in the (honest) body of aid: one per command group"""
@@ -202,6 +260,13 @@ class SmGen(WorldGen):
             gs.append("R%s.%s" % (v, self.vpar(v)))
         for w in b["vtbs"]:
             x = self.vtb[w]
+            if self.bad.get(w) in ("wunkn", "wexpired"):
+                # the BTC context is added, then the endorsement command fails: the group rolls back
+                cmds = ["N%s" % x["containing"]]
+                for bb in x["bctx"]:
+                    cmds.append("R%s.%s" % (bb, self.btc[bb]["parent"]))
+                gs.append(",".join(cmds + ["X"]))
+                continue
             if self.bad.get(w):
                 gs.append("N%s,X" % x["containing"])
                 continue
@@ -263,7 +328,7 @@ class SmHistory(History):
     def planted_block(self):
         g, r = self.g, self.r
         parent = self.pick_parent()
-        kinds = [("ctx", 0), ("vtb", 0), ("atv", 0, r.choice(ATV_BAD_KINDS)), ("dupatv",), ("dupctx",)]
+        kinds = [("ctx", 0), ("vtb", 0, r.choice(VTB_BAD_KINDS)), ("atv", 0, r.choice(ATV_BAD_KINDS)), ("dupatv",), ("dupctx",)]
         p = r.choice(kinds)
         n_vtb = 1 if p[0] == "vtb" else r.below(2)
         n_atv = 1 if p[0] == "atv" else r.below(2)
@@ -306,9 +371,66 @@ class SmHistory(History):
         g.hole.append((a, bid))
         return a, bid
 
+    def early_scenario(self):
+        """payload valid only thanks to SP state introduced by LATER SP blocks: VTB w2 sits in VBK block c2, its
+        block of proof b2 connects (empty BTC context) to b1, and b1 is delivered only by VTB w1 contained in a VBK
+        block ABOVE c2. x1 carries w1 (valid), its child x2 carries w2 (invalid: when c2 was mined nobody had
+        published b1). Then the VBK chain is reorganised below w1's containing block, on top of both."""
+        g, r = self.g, self.r
+        if getattr(g, "early", None):
+            return None      # once per history: afterwards the BTC view depends on which VBK fork is the best one
+        parent = self.pick_parent()
+        pool = g.vtb_pool(g.alt[parent]["kv"])
+        if not pool:
+            return None
+        g.no_vtb = True      # (honest VTBs mined later would have to know which VBK fork every chain ends up on)
+        b1 = g.mine_btc()
+        w2 = g.make_xvtb(r.choice(pool), b1, bparent=b1)
+        c2 = g.vtb[w2]["containing"]
+        g.bad[w2] = "wearly"
+        mid = c2
+        for _ in range(r.below(2)):
+            mid = g.mine_vbk(parent=mid)
+        w1 = g.make_vtb(c2, g.last_btc(parent, []), vparent=mid)
+        c1 = g.vtb[w1]["containing"]
+        x1 = g.new_alt(parent)
+        g.set_pd(x1, vtbs=[w1])
+        x2 = g.new_alt(x1)
+        g.set_pd(x2, vtbs=[w2])
+        g.fix_kb(x2)
+        g.planted_blocks[x2] = ("vtb", 0, "wearly")
+        # a longer VBK fork on top of `mid`: w1's containing block leaves the VBK best chain
+        f = mid
+        fork = []
+        for _ in range(r.range(2, 3)):
+            f = g.mine_vbk(parent=f)
+            fork.append(f)
+        x3 = g.new_alt(x2)
+        g.set_pd(x3, ctx=fork)
+        y3 = g.new_alt(x1)
+        g.set_pd(y3, ctx=fork)
+        g.early = getattr(g, "early", [])
+        g.early.append((x1, x2, x3, y3))
+        self.show(x1, order="inorder")
+        self.on("set", x1)
+        self.show(x2, order="inorder")
+        self.on(r.choice(["set", "cmp"]), x2)
+        self.on("sm")
+        self.show(x3, order="inorder")
+        self.on("set", x3)
+        self.on("sm")
+        self.show(y3, order="inorder")
+        self.on(r.choice(["set", "cmp"]), y3)
+        self.on("react")
+        self.on("sm")
+        return x2
+
     def step(self):
         r = self.r
         if self.planted and r.chance(self.planted, 100):
+            if getattr(self, "early_pct", 0) and r.chance(self.early_pct, 100):
+                if self.early_scenario() is not None:
+                    return
             if r.chance(1, 3):
                 a, b = self.hole_scenario()
                 self.show(a, order="inorder")
@@ -429,7 +551,7 @@ def model_script(lines, results, gens):
             state = dict(g=g, hdr={"a0"}, body={"a0"}, conn={"a0"}) if g is not None else None
             if g is not None:
                 ki = g.cfg.get("alt_ki", 5)
-                aux("begin %d" % ki)
+                aux("begin %d%s" % (ki, " alt" if alt_only(g) else ""))
             continue
         if state is None or res is None:
             continue
@@ -461,13 +583,23 @@ def model_script(lines, results, gens):
             if li + 1 < len(lines):
                 n = lines[li + 1].split()
                 if n[1:] == ["on", "A", "sm"] and results.get(n[0]):
-                    exp = results[n[0]].replace(" ", "~")
+                    exp = (alt_part(results[n[0]]) if alt_only(g) else results[n[0]]).replace(" ", "~")
             out.append("%s cmp %s %s %s" % (cid, t[4] if known else "-", res, exp))
             cmp_ids.append(cid)
         elif c == "sm":
             out.append("%s sm" % cid)
             cmp_ids.append(cid)
     return out, cmp_ids
+
+
+def alt_only(g):
+    """histories in which a VBK reorganisation takes applied VTBs off the VBK best chain: SP fork resolution is outside
+    the model, only the ALT part of the state (tip, applied count, levels, flags) is compared there"""
+    return bool(getattr(g, "early", None))
+
+
+def alt_part(dump):
+    return " |".join(dump.split(" |")[:2])
 
 
 def norm_impl(op_line, res):
@@ -568,7 +700,10 @@ class Script:
 
 def small_cfg(r):
     settle = r.range(3, 6)
-    return {"alt_ki": r.range(2, 3), "alt_settle": settle, "payout_delay": settle, "payout_avg": 3}
+    cfg = {"alt_ki": r.range(2, 3), "alt_settle": settle, "payout_delay": settle, "payout_avg": 3}
+    if r.chance(1, 2):
+        cfg["vbk_settle"] = r.range(3, 8)      # small enough for expired VBK endorsements to be constructible
+    return cfg
 
 
 def gen_c02_history(seed, cfg, shape, sc, sidx):
@@ -619,9 +754,14 @@ def gen_c02_history(seed, cfg, shape, sc, sidx):
         plist = list(g.positions(bid))
         if i > 0 and r.chance(1, 3):
             plist.append(r.choice([("dupatv",), ("dupctx",)]))
+        if r.chance(1, 3):
+            # one more VTB, after the honest ones, that fails inside its command group
+            plist.append(("vtb", len(g.alt[bid]["vtbs"]), r.choice(["wunkn", "wexpired"])))
         for pos in plist:
             if pos[0] == "atv":
                 pos = ("atv", pos[1], ATV_BAD_KINDS[(sidx + i + pos[1] + k) % 4])
+            if pos[0] == "vtb" and len(pos) == 2:
+                pos = ("vtb", pos[1], VTB_BAD_KINDS[(sidx + i + pos[1] + k) % 3])
             k += 1
             br = instantiate((i, pos))
             H.show(br[-1], order=order)
@@ -674,12 +814,66 @@ def gen_c02(ctx, sc, n_shapes, maxn, maxg, n_random):
         sc.bump("c02_random")
 
 
+def gen_c02_spfork(ctx, sc, n_hist):
+    """SP forks in C02 histories: two VBK forks p, q from a common block, delivered by two consecutive ALT blocks of
+    the active chain (p first; q mostly EXACTLY as long as p, so p stays the VBK best chain). The target ALT block
+    first extends q (the VBK best chain moves to q) and then fails in a later command group. The snapshot oracle
+    compares the same instance before and after, so a tie needs no carve-out."""
+    r = ctx.rng
+    for _ in range(n_hist):
+        g = SmGen(r.fork(), small_cfg(r))
+        H = SmHistory(g)
+        a = "a0"
+        for _ in range(r.below(3)):
+            a = g.build_block(a, n_atv=r.below(2), n_extra=r.below(2))
+        kv = g.alt[a]["kv"]
+        base = max(kv, key=lambda v: (g.vbk[v]["height"], -int(v[1:])))
+        k = r.range(1, 4)
+        d = r.choice([0, 0, 0, 0, 1, -1]) if k > 1 else r.choice([0, 0, 0, 1])
+        p, q = [], []
+        v = base
+        for _ in range(k):
+            v = g.mine_vbk(parent=v)
+            p.append(v)
+        v = base
+        for _ in range(k + d):
+            v = g.mine_vbk(parent=v)
+            q.append(v)
+        a1 = g.new_alt(a)
+        g.set_pd(a1, ctx=p)
+        a2 = g.new_alt(a1)
+        g.set_pd(a2, ctx=q)
+        H.show(a2, order="inorder")
+        H.on("set", a2)
+        H.on("sm")
+        for t in range(r.range(1, 3)):
+            g.vtip = q[-1]                        # payloads of the target are mined on top of q
+            par = r.choice([a2, a2, a1])
+            plant = r.choice([("atv", 0, r.choice(ATV_BAD_KINDS)), ("ctx", 1), ("vtb", 0, r.choice(VTB_BAD_KINDS)),
+                              ("atv", 1, r.choice(ATV_BAD_KINDS))])
+            tgt = g.build_block(par, n_atv=r.below(2), n_extra=3 if plant[0] == "ctx" else r.range(1, 2), plant=plant)
+            H.show(tgt, order="inorder")
+            H.on(r.choice(["set", "set", "cmp"]), tgt)
+            H.on("sm")
+            if r.chance(1, 2):
+                H.on("set", r.choice([a, a1, a2]))
+                H.on("sm")
+                H.on("set", a2)
+            sc.bump("c02_spfork_targets")
+        H.on("react")
+        H.on("sm")
+        sc.add(g)
+        sc.bump("c02_spfork_histories")
+        sc.bump("c02_spfork_tied" if d == 0 else "c02_spfork_untied")
+
+
 def gen_c20(ctx, sc, n_hist, steps):
     r = ctx.rng
     for k in range(n_hist):
         g = SmGen(r.fork(), small_cfg(r))
         destructive = (k % 2 == 1)
         H = SmHistory(g, planted=35, destructive=destructive)
+        H.early_pct = 12
         for i in range(steps):
             H.step()
             if r.chance(1, 8):
@@ -692,6 +886,7 @@ def gen_c20(ctx, sc, n_hist, steps):
         sc.add(g, modelled=not destructive)
         sc.bump("c20_histories")
         sc.bump("c20_holes", len(getattr(g, "hole", [])))
+        sc.bump("c20_valid_only_by_later_sp_blocks", len(getattr(g, "early", [])))
         sc.bump("c20_planted_blocks", len(g.planted_blocks))
 
 
@@ -856,8 +1051,10 @@ def run_check(ctx, pid):
         if pid == "C02":
             if quick:
                 gen_c02(ctx, sc, 25, 4, 4, 12)
+                gen_c02_spfork(ctx, sc, 12)
             else:
                 gen_c02(ctx, sc, 500, 12, 6, 300)
+                gen_c02_spfork(ctx, sc, 300)
         elif pid == "C20":
             if quick:
                 gen_c20(ctx, sc, 36, 30)
@@ -961,11 +1158,17 @@ def run_check(ctx, pid):
             if rc != 0:
                 ctx.broken.append("model-run: rc=%d %s" % (rc, merr[-300:]))
             byid = {l.split()[0]: l for l in lines}
+
+            def want_of(cid, res):
+                w = norm_impl(byid[cid], res)
+                if byid[cid].split()[3] == "sm" and alt_only(sc.gens.get(cid.rsplit("_", 1)[0])):
+                    w = alt_part(w)
+                return w
             for cid in cmp_ids:
                 if cid not in results or cid not in byid:
                     continue
                 ncmp += 1
-                want = norm_impl(byid[cid], results[cid])
+                want = want_of(cid, results[cid])
                 got = mres.get(cid)
                 if got == want:
                     nagree += 1
@@ -981,7 +1184,7 @@ def run_check(ctx, pid):
                 ml = model_lines_of(mlines, pre)
                 # re-run once to exclude flakiness
                 r2, _, c2 = run_script(hbin, hist, ctx.work, tag=pid + "-re", timeout=600)
-                if not c2 and norm_impl(byid[cid], r2.get(cid, "")) == got:
+                if not c2 and want_of(cid, r2.get(cid, "")) == got:
                     continue
                 if pre not in seen:     # otherwise a concrete failing input of the same history is reported as well
                     ctx.broken.append("corr:Pop.SmDefs.%s: first disagreeing call %s of history %s: model `%s` implementation `%s`"
